@@ -131,6 +131,7 @@ def run(c, chk):
     unique_titles(c, chk, ex)
     typed_members(c, chk, 'R9.10')
     list_calls_need_a_list(c, chk)
+    list_element_width(c, chk)
     # R9.12: "an unknown name fails without effect", "removal by path": the by-name calls address what the resolver finds
     if not isinstance(chk, report.SubCheck):
         from . import c11 as _c11
@@ -404,6 +405,32 @@ def list_calls_need_a_list(c, chk):
         else:
             chk.ok('R9.13', fname, 'every path with an effect has tested CFGF_LIST')
     chk.floor('R9.13 effect paths of the list calls', n, 2)
+
+
+def list_element_width(c, chk):
+    """R9.14: the elements of cfg_setlist()/cfg_addlist() travel through "...": an integer element is what the caller wrote,
+    an int (the default argument promotions leave it one; tests/ and examples/ pass plain int constants).  The worker
+    fetches it with that width and widens it - fetching a long reads 32 bits the caller never wrote (a negative element
+    comes out as a large positive number)"""
+    chk.rule('R9.14', 'an integer element of the variadic list calls is fetched as int and sign-extended (the width the callers pass)')
+    n = 0
+    bad = None
+    for f in c.confuse.funcs.values():
+        if not any(p_.ty == '%struct.__va_list_tag*' for p_ in f.params) and not any(i.op == 'call' and (i.callee_name() or '').startswith('llvm.va_start') for i in f.instrs()):
+            continue
+        for call in f.calls('cfg_opt_setnint'):
+            a = call.args[1]
+            d = f.defs.get(a.name) if a.kind == 'reg' else None
+            n += 1
+            if not (d is not None and d.op == 'sext' and d.ops[0].ty == 'i32'):
+                bad = bad or (f, call)
+    if bad is not None:
+        f, call = bad
+        chk.fail('R9.14', 'list-int-width:%s' % sorted(c.owners(f.name))[0], c.where(call), '%s() hands cfg_opt_setnint() a list element that was not fetched as a 32-bit int and sign-extended: '
+                 'callers pass int, so the upper half of what is read is whatever the register or stack slot held (cfg_addlist(cfg, "x", 1, -1) stores 4294967295)' % f.name)
+    elif n:
+        chk.ok('R9.14', 'variadic list worker: %d integer fetch(es)' % n, 'va_arg(ap, int), sign-extended to long')
+    chk.floor('R9.14 integer fetches of the list worker', n, 1)
 
 
 def fp_null(cn, t):
